@@ -184,7 +184,7 @@ Proof.
   split.
   { rewrite Hn, H1, G1, qn_add, sumQ_app, <- H2, <- G2. field. exact Hnz. }
   split.
-  { rewrite Hn, H1, G1, qn_add, qn_mul, sumsq_app, H3, G3. field. exact Hnz. }
+  { rewrite Hn, H1, G1, qn_add, sumsq_app, H3, G3. field. exact Hnz. }
   split.
   { intros E. apply app_eq_nil in E. destruct E as [E _]. subst xs. exfalso. now apply Ea. }
   split; [rewrite H5, G5; apply lmin_app | rewrite H6, G6; apply lmax_app].
@@ -223,33 +223,74 @@ Proof.
   destruct i as [| i]; constructor; auto.
 Qed.
 
-Lemma step_Inv : forall s g o, Forall2 Inv s g -> Forall2 Inv (step hi lo s o) (gstep g o).
+(** the initializing constructor with the fields of c copies of v *)
+Lemma sumQ_repeat : forall v n, sumQ (repeat v n) == v * qn (N.of_nat n).
 Proof.
-  intros s g o H. destruct o as [i v | i j k | i j | i]; cbn [step gstep]; apply Forall2_upd; try exact H.
+  intros v. induction n as [| n IH]; cbn [repeat sumQ]; [change (qn (N.of_nat 0)) with 0; ring |].
+  rewrite IH. replace (N.of_nat (S n)) with (N.of_nat n + 1)%N by lia. rewrite qn_add. change (qn 1) with 1. ring.
+Qed.
+Lemma sumsq_repeat : forall v n, sumsq (repeat v n) == v * v * qn (N.of_nat n).
+Proof.
+  intros v. induction n as [| n IH]; cbn [repeat sumsq]; [change (qn (N.of_nat 0)) with 0; ring |].
+  rewrite IH. replace (N.of_nat (S n)) with (N.of_nat n + 1)%N by lia. rewrite qn_add. change (qn 1) with 1. ring.
+Qed.
+Lemma lmin_repeat : forall v n, v <= hi -> lmin hi (repeat v (S n)) == v.
+Proof.
+  intros v n Hv. induction n as [| n IH]; cbn [repeat lmin fold_right] in *.
+  - now apply Q.min_l.
+  - rewrite IH. apply Q.min_l. apply Qle_refl.
+Qed.
+Lemma lmax_repeat : forall v n, lo <= v -> lmax lo (repeat v (S n)) == v.
+Proof.
+  intros v n Hv. induction n as [| n IH]; cbn [repeat lmax fold_right] in *.
+  - now apply Q.max_l.
+  - rewrite IH. apply Q.max_l. apply Qle_refl.
+Qed.
+
+(** a history is well-formed when every constructed Aggregate stands for at least one value of the type's range *)
+Definition op_ok (o : op) : Prop :=
+  match o with OConst _ c v => c <> 0%N /\ lo <= v /\ v <= hi | _ => True end.
+
+Lemma Inv_const : forall c v, c <> 0%N -> lo <= v -> v <= hi -> Inv (mkAgg c v 0 v v) (repeat v (N.to_nat c)).
+Proof.
+  intros c v Hc Hlo Hhi. unfold Inv. cbn [count mean nvar amin amax].
+  assert (Hl : len (repeat v (N.to_nat c)) = c) by (unfold len; rewrite repeat_length; lia).
+  destruct (N.to_nat c) as [| m] eqn:Em; [lia |].
+  rewrite Hl. split; [reflexivity |]. rewrite <- Hl. unfold len. rewrite repeat_length.
+  split; [rewrite sumQ_repeat; reflexivity |].
+  split; [rewrite sumsq_repeat; ring |].
+  split; [intros E; discriminate E |].
+  split; [symmetry; now apply lmin_repeat | symmetry; now apply lmax_repeat].
+Qed.
+
+Lemma step_Inv : forall s g o, op_ok o -> Forall2 Inv s g -> Forall2 Inv (step hi lo s o) (gstep g o).
+Proof.
+  intros s g o Hok H. destruct o as [i v | i j k | i j | i | i c v]; cbn [step gstep]; apply Forall2_upd; try exact H.
   - eapply Inv_agg_eq; [| apply norm_eq]. apply Inv_add. now apply Forall2_nth_Inv.
   - eapply Inv_agg_eq; [| apply norm_eq]. apply Inv_plus; now apply Forall2_nth_Inv.
   - eapply Inv_agg_eq; [| apply norm_eq]. apply Inv_plus_assign; now apply Forall2_nth_Inv.
   - apply Inv_empty.
+  - eapply Inv_agg_eq; [| apply norm_eq]. destruct Hok as (Hc & Hlo & Hhi). now apply Inv_const.
 Qed.
 
-Lemma run_Inv : forall n ops, Forall2 Inv (run hi lo n ops) (ghost n ops).
+Lemma run_Inv : forall n ops, Forall op_ok ops -> Forall2 Inv (run hi lo n ops) (ghost n ops).
 Proof.
-  intros n ops. unfold run, ghost.
+  intros n ops Hok. unfold run, ghost.
   assert (H0 : Forall2 Inv (repeat (empty hi lo) n) (repeat [] n)).
   { induction n; cbn [repeat]; constructor; [apply Inv_empty | assumption]. }
   revert H0. generalize (repeat (empty hi lo) n) (repeat (@nil Q) n).
-  induction ops as [| o ops IH]; intros s g H; cbn [fold_left]; [exact H |].
+  induction Hok as [| o ops Ho Hops IH]; intros s g H; cbn [fold_left]; [exact H |].
   apply IH. now apply step_Inv.
 Qed.
 
 (** MAIN THEOREM.  After any history of add / + / += / reset over any number of Aggregate variables,
     every variable equals (count; mean, nvar, min, max up to ==) the Aggregate obtained by feeding
     all the values it stands for into one empty Aggregate. *)
-Theorem combine_eq_feed_all : forall n ops i,
+Theorem combine_eq_feed_all : forall n ops i, Forall op_ok ops ->
   agg_eq (nth i (run hi lo n ops) (empty hi lo)) (feed (nth i (ghost n ops) []) (empty hi lo)).
 Proof.
-  intros n ops i. eapply Inv_unique; [| apply Inv_feed].
-  apply Forall2_nth_Inv. apply run_Inv.
+  intros n ops i Hok. eapply Inv_unique; [| apply Inv_feed].
+  apply Forall2_nth_Inv. now apply run_Inv.
 Qed.
 
 (** the two-operand statements, for all pairs of value lists including empty ones *)
@@ -304,6 +345,12 @@ Lemma combine_variance_shipped_refuted :
   combine_variance_shipped e e = None /\ combine_variance e e == 0.
 Proof. cbv zeta. split; vm_compute; reflexivity. Qed.
 
+(** count_ * other.count_ in size_t: two operands of 2^32 values each lose the between-group term *)
+Lemma combine_variance_wrapping_refuted :
+  let a := mkAgg (2 ^ 32) 0 0 0 0 in let b := mkAgg (2 ^ 32) 1 0 1 1 in
+  combine_variance_wrapping a b == 0 /\ combine_variance a b == (2 ^ 31)%Z # 1.
+Proof. cbv zeta. split; vm_compute; reflexivity. Qed.
+
 (** the hypotheses of the main theorem are satisfiable by a non-trivial history *)
 Example combine_example :
   let ops := [OAdd 0 1; OAdd 0 2; OAdd 0 3; OAdd 1 10; OAdd 1 20; OPlus 2 0 1; OPlusAssign 0 1] in
@@ -311,3 +358,13 @@ Example combine_example :
   nth 0 (ghost 3 ops) [] = [1; 2; 3; 10; 20] /\
   Qred (variance (nth 0 (run 1000 (-1000) 3 ops) (empty 1000 (-1000))) 1) = 637 # 10.
 Proof. cbv zeta. repeat split; vm_compute; reflexivity. Qed.
+
+(** ... and by a history that constructs Aggregates of 3 and of 2^32 values *)
+Example const_example :
+  let ops := [OConst 0 3 2; OConst 1 (2 ^ 32) 1; OPlus 2 0 1] in
+  Forall (op_ok 1000 (-1000)) ops /\
+  count (nth 2 (run 1000 (-1000) 3 ops) (empty 1000 (-1000))) = (2 ^ 32 + 3)%N.
+Proof.
+  cbv zeta. split; [| vm_compute; reflexivity].
+  repeat constructor; cbn; try discriminate; try (intro H; discriminate H).
+Qed.
